@@ -395,7 +395,10 @@ func (e *Engine) expandNode(x *OCtx, id int32) []expandResult {
 				continue
 			}
 			if a.Kind == "restart" && res.OK() && o.Prop() != "C20" {
-				continue // the restart itself is judged by C19 (every state is an export point there); the others judge what follows
+				// the restart itself is judged by C19 (every state is an export point there) and by the list of things it must
+				// leave alone; the step oracles judge what follows
+				viols = append(viols, restartPreserves(o.Prop(), x, t)...)
+				continue
 			}
 			viols = append(viols, o.Step(x, t)...)
 		}
@@ -528,6 +531,9 @@ func (e *Engine) dirtyContinuation(x *OCtx, pre *State, a Action) []Found {
 				halt := act.Kind == "E" && res.Panic != ""
 				t := &Trans{Pre: v, Act: *act, Res: res, Post: pv, PreMon: mon, PostMon: pm}
 				for _, o := range e.Oracles {
+					if act.Kind == "restart" && res.OK() && o.Prop() != "C20" {
+						vs = append(vs, restartPreserves(o.Prop(), x, t)...)
+					}
 					if (halt || (act.Kind == "restart" && res.OK())) && o.Prop() != "C20" {
 						continue
 					}
